@@ -22,8 +22,8 @@ ensures — the property: at every injection RPC the payload carries the counter
     C + P + 1 .. C + P + k     C = account counter in the node's head, P = number of contents of the
                                account pending in the mempool (applied/unprocessed), k = #contents.
 Supporting contracts (counter allocator, stated on results only, never on the cache attribute):
-    get_counter          first call after construction/reset()/set_counter(c): node counter + 1 (resp. c + 1);
-                         every further call: previous result + 1
+    get_counter          first call after construction / reset() / an injection attempt (accepted or refused) /
+                         set_counter(c): node counter + 1 (resp. c + 1); every further call: previous result + 1
     get_counter_offset   == P
 """
 from __future__ import annotations
@@ -40,6 +40,10 @@ def key():
     global _KEY
     if _KEY is None:
         from pytezos.crypto.key import Key
+        import pytezos.rpc.query as q
+        # every RpcQuery object renders its interactive help text on construction (~60% of the run time);
+        # the text is irrelevant to the calls under contract and is stubbed out
+        q.format_docstring = lambda *a, **k: ''
         _KEY = Key.from_encoded_key(SECRET)
     return _KEY
 
@@ -88,7 +92,7 @@ def sequences(max_len):
 # ----------------------------------------------------------------------------- initial node / client states
 COUNTERS = [0, 126]                                  # 126: a batch of 3 crosses the 1-byte zarith boundary 127|128
 PENDING = {'p0': ((), ()), 'p1+refused': ((1,), (1,)), 'p3': ((2, 1), ())}   # (pending groups, refused groups) of the account
-PRELUDES = {'fresh': (), 'after-included': ('N1', 'A', 'S', 'I+', 'B'), 'after-refused': ('N1', 'F', 'S', 'I-')}
+PRELUDES = {'fresh': (), 'after-included': ('N1', 'A', 'S', 'I+', 'B'), 'after-refused': ('N1', 'A', 'S', 'I-')}
 
 
 def configs():
@@ -190,21 +194,23 @@ def run_sequence(cfg, seq, stop_at_first=True):
                 ok = sym[1] == '+'
                 outcomes[:] = [ok]
                 before = len(st.injections)
-                if sym[0] == 'X' and info['pending_at_fill'] is None:
-                    info['pending_at_fill'] = st.pending_count()
-                    info['alloc_before'] = gh.alloc_since_reset
+                inj_info = info if sym[0] == 'I' else dict(info, path=info['path'] + 'X')   # send autofills a private copy
+                if inj_info['pending_at_fill'] is None:
+                    inj_info['pending_at_fill'], inj_info['alloc_before'] = st.pending_count(), gh.alloc_since_reset
                 try:
                     if sym[0] == 'I':
                         g.inject()
                     else:
-                        info['path'] += 'X'
                         g.send()
                 finally:
                     if len(st.injections) > before:
+                        # specified effect of an injection attempt (accepted or refused): the allocator is
+                        # re-initialised, the next get_counter reads the node (ghost follows the SPEC, not the code)
+                        gh.prev, gh.base, gh.alloc_since_reset = None, None, 0
                         n_inj += 1
                         rec = st.injections[-1]
                         if rec['counters'] != rec['expected'] and not in_prelude:
-                            viol.append(_inject_violation(rec, info, sym))
+                            viol.append(dict(_inject_violation(rec, inj_info, sym), step=idx - len(PRELUDES[prename]) + 1))
                         elif rec['counters'] != rec['expected']:
                             raise RuntimeError(f'prelude {prename} itself violates the property: {rec}')
             flags = f2
@@ -278,7 +284,7 @@ def work(task):
         key_ = repr((cfg[1], cfg[2], _abstract(seq)))
         classes[key_] = classes.get(key_, 0) + 1
         for v in r['violations']:
-            fails.append(dict(v, cfg=list(cfg), seq=list(seq)))
+            fails.append(dict(v, cfg=list(cfg), seq=list(seq)[:v.get('step', len(seq))]))
     return n, inj, classes, fails, other_exc, rpc_raised
 
 
